@@ -46,6 +46,18 @@ func (fr *Frame) intrinsic(st *State, site ssa.Instruction, full string, fn *ssa
 		return tuple(hi, lo)
 	}
 	switch full {
+	case "crypto/subtle.ConstantTimeCopy":
+		// ConstantTimeCopy(v, x, y): x = y when v == 1, x unchanged when v == 0; panics when the lengths differ
+		if t, ok := args[0].(*Term); ok && t.IsConst() && t.K.Int64() == 1 {
+			dx, okx := args[1].(*SliceV)
+			sy, oky := args[2].(*SliceV)
+			if okx && oky {
+				fr.oblige(st, "bounds:subtle", F.Eq(dx.Len, sy.Len), "subtle.ConstantTimeCopy: slices of equal length")
+				fr.copyBuiltin(st, dx, sy)
+				return nil, true
+			}
+		}
+		unsup("subtle.ConstantTimeCopy with a symbolic selector")
 	case "math/bits.Add64", "math/bits.Add":
 		return addw(64), true
 	case "math/bits.Add32":
@@ -350,6 +362,17 @@ func (fr *Frame) ringCall(st *State, fn *ssa.Function, args []Value) (Value, boo
 		return set(F.Mul(ld(1), ld(2)))
 	case "Conjugate":
 		return set(F.App("ring.conj."+recvName(rt), SInt, ld(1)))
+	case "BigInt":
+		// z.BigInt(res): res = the integer in [0, q) that z denotes (uninterpreted at the ring layer)
+		if len(args) == 2 && v.isBig(fn.Signature.Params().At(0).Type().(*types.Pointer).Elem()) {
+			fr.store(st, args[1], F.App("ring.toint", SInt, ld(0)), nil)
+			v.ringUsed[v.funcKey(fn)] = true
+			return args[1], true
+		}
+	case "SetBigInt":
+		if len(args) == 2 && v.isBig(fn.Signature.Params().At(0).Type().(*types.Pointer).Elem()) {
+			return set(F.App("ring.ofint", SInt, ld(1)))
+		}
 	case "Exp":
 		// z.Exp(x, k): x^k for any integer k (uninterpreted; the exponent is the integer held by the big.Int)
 		if len(args) == 3 && v.isBig(fn.Signature.Params().At(1).Type().(*types.Pointer).Elem()) {
@@ -373,7 +396,18 @@ func (fr *Frame) ringCall(st *State, fn *ssa.Function, args []Value) (Value, boo
 	if !otherPtr {
 		v.fresh++
 		if _, isPtr := recv.Type().(*types.Pointer); isPtr {
-			fr.store(st, args[0], F.Var(fmt.Sprintf("opq!%s!%d", fn.Name(), v.fresh), SInt), nil)
+			// setter-style methods (no result, the receiver returned for chaining, or a Set*/Read*/From* name)
+			// write their receiver; getters and predicates (Bytes, String, Cmp, ...) do not
+			rs0 := fn.Signature.Results()
+			setter := rs0.Len() == 0 || types.Identical(rs0.At(0).Type(), recv.Type())
+			for _, pre := range []string{"Set", "Read", "Unmarshal", "From", "Decode", "Fill", "Reset", "set"} {
+				if strings.HasPrefix(fn.Name(), pre) {
+					setter = true
+				}
+			}
+			if setter {
+				fr.store(st, args[0], F.Var(fmt.Sprintf("opq!%s!%d", fn.Name(), v.fresh), SInt), nil)
+			}
 		}
 		v.assume("method " + v.funcKey(fn) + " of an abstract element type is treated as opaque at the ring layer (fresh receiver value, unconstrained results; it is assumed to write nothing but its receiver and fresh memory)")
 		rs := fn.Signature.Results()
